@@ -112,7 +112,7 @@ def run(chk):
         chk.leanchecker(["Properties.C07", "Proofs.Order", "Proofs.Walk"])
     n = 250 if tier == "quick" else 6000
     nu = 250 if tier == "quick" else 3000
-    k = Knobs(envelope="asap", sub_slot=0.0, p_alt=0.0, p_tz=0.0, p_eff=0.15, eff=["0.5", "2", "0.25"], p_onstart=0.15, p_leave=0.5,
+    k = Knobs(envelope="asap", sub_slot=0.0, p_alt=0.0, p_tz=0.0, p_eff=0.15, eff=["0.5", "2", "0.25"], p_onstart=0.15, p_leave=0.6, p_long_leave=0.5, p_nested_abs=1.0,
               p_prec=0.2, p_limits=0.3, p_tasklimits=0.1, p_team=0.2, big_effort=0.05, aligned_only=True, dur_weeks=[3, 4])
     k2 = Knobs(envelope="asap", sub_slot=0.0, p_alt=0.0, p_tz=0.0, p_eff=0.0, max_res=1, max_tasks=6, p_container=0.7, p_dep=0.7,
                p_gap=0.2, p_onstart=0.0, p_limits=0.1, p_tasklimits=0.0, p_team=0.0, big_effort=0.0, p_wh=0.1, p_leave=0.1,
